@@ -42,7 +42,7 @@ MANIFEST = dict(
          "is a list of dict records. No statement is left open; positive examples for the four repaired findings "
          "(C06_numeric_example, C06_empty_literal_example, C06_chained_example, C06_empty_inner_example). Differential only: "
          "first on chained selections (return_lists=False unwraps single matches on both levels), other spellings of P than the "
-         "canonical one for the predicate forms, list-rooted containers. The model of the resolver is compared with the real "
+         "canonical one for the predicate forms. The model of the resolver is compared with the real "
          "code on all selecting forms and chained selections at depth 0-3, with string, int, bool, float and None fields, missing "
          "fields, duplicates, occurring and non-occurring literals, the empty literal, empty inner lists; the statement "
          "(list-comprehension oracle, numeric fields compared as numbers; nested per-parent lists for chained selections, also "
